@@ -13,4 +13,10 @@ Check (C16_typed_query_ignores_history : forall std old d bs ty,
   lenN old = bs ->
   typed_parse_input std old d bs = recv_into bs d /\
   from_msg (typed_parse_input std old d bs) ty = from_msg (recv_into bs d) ty).
-Print Assumptions C16_leftovers_ignored. Print Assumptions C16_leftover_accepted_only_if_matching. Print Assumptions C16_typed_query_ignores_history.
+Check (C16_buffer_history_safe : forall std bs, 0 < bs -> forall h st, tq_inv bs st ->
+  Forall (fun se => match snd se with TqDone r => r <= bs | _ => True end) h ->
+  Forall (fun o => o = TqRan bs) (tq_run std bs st h)).
+Check (C16_buffer_history_example : tq_inv 65535 (65535, 0) /\
+  tq_run false 65535 (65535, 0) [(0, TqDone 120); (7, TqDropped); (0, TqDone 300); (3, TqFailed); (0, TqDropped); (1, TqDone 65535)] =
+  [TqRan 65535; TqRan 65535; TqRan 65535; TqRan 65535; TqRan 65535; TqRan 65535]).
+Print Assumptions C16_leftovers_ignored. Print Assumptions C16_leftover_accepted_only_if_matching. Print Assumptions C16_typed_query_ignores_history. Print Assumptions C16_buffer_history_safe. Print Assumptions C16_buffer_history_example.
